@@ -40,7 +40,11 @@ import (
 func init() { vf.Register(&vf.Property{ID: "C12", Run: runC12, Replay: replayC12}) }
 
 type c12Case struct {
-	Stream string `json:"stream"` // vector | valid | mutation | hostile
+	Stream string `json:"stream"` // vector | valid | mutation | hostile | shape
+	// shape stream (c12_shape.go): memory layout of the argument slices
+	Shape string `json:"shape,omitempty"` // exact | nil | empty | spare | shared | shared-capped | shared-gap
+	Spare int    `json:"spare,omitempty"` // spare capacity / guard size
+	Perm  int    `json:"perm,omitempty"`  // order of the arguments in the shared array
 	Prim   string `json:"prim"`   // akw | kdf | ecdhes | pbes2 | acbc | agcm | agcmkw | dir
 	Op     string `json:"op"`     // wrap | unwrap | enc | dec | derive | kw | only
 	Alg    int    `json:"alg"`    // parameter set 0..2 (akw: 3 = NewKeyWrapper([]byte))
@@ -581,7 +585,13 @@ func (e *c12Exec) mustFail(g c12Res) {
 func execC12(c *vf.Ctx, d *vf.Driver, cs c12Case) {
 	c12Probe(c)
 	e := &c12Exec{c: c, d: d, cs: cs, nt: true}
-	switch cs.Prim + "." + cs.Op {
+	key := cs.Prim + "." + cs.Op
+	if cs.Stream == "shape" {
+		key = "shape"
+	}
+	switch key {
+	case "shape":
+		e.shape()
 	case "akw.wrap":
 		e.akwWrap()
 	case "akw.unwrap":
